@@ -23,8 +23,9 @@ ASSUMPTIONS = [
     "an empty page means the remaining requested objects of that cluster no longer exist (as list.go says: "
     "'Zero items == no more results exist')",
     "modified_at values of distinct objects are distinct (ties would let the unstable sort order them either way)",
-    "honest-backend hypothesis of C20_exactly_once: each page is a duplicate-free list of existing objects whose "
-    "uuid is in the batch, non-empty while such objects remain; what happens outside it is F10",
+    "honest-backend hypothesis of C20_exactly_once (success + completeness): each page is a duplicate-free list of "
+    "existing objects whose uuid is in the batch, non-empty while such objects remain; C20_safe needs no hypothesis "
+    "on the backends; a page with an item outside its batch makes the request fail with 502 (fix d542fa4, F10)",
 ]
 TRUSTED = ["stub backends (zz_verif_c20_test.go) and their mirror scriptBackend in Driver/C20.lean",
            "lib/controller/localdb/login_pam.go replaced by a stub so that the package builds without the PAM header"]
@@ -282,8 +283,8 @@ def oracle(case, impl):
         return None
     if not o.ok:
         if strays:
-            # a backend returned items outside its batch next to wanted ones: failing the whole request is a
-            # safe answer (this is what the proposed fix for F10 does); the unchanged code succeeds instead
+            # a backend returned items outside its batch next to wanted ones: failing the whole request is the
+            # safe answer (fix d542fa4 for F10); succeeding with the surplus is a violation (checked below)
             return None
         return f"request failed (status {o.status}) although every involved cluster answered with progress"
     if undelivered:
@@ -294,19 +295,12 @@ def oracle(case, impl):
     missing = expected - got
     extra = got - expected
     if not missing and extra and extra == strays:
-        return ("F10-shape: a page carried, next to wanted items, items outside its batch and the result repeats/includes them: "
+        # the shape of finding F10 (fixed by d542fa4): a page with wanted items plus items outside its batch merged wholesale
+        return ("a page carried, next to wanted items, items outside its batch and the result repeats/includes them: "
                 + ",".join(sorted(extra)))
     if missing:
         return "requested existing objects missing from the result: " + ",".join(sorted(missing))
     return "result contains objects more often than once / not requested: " + ",".join(sorted(extra))
-
-
-def finding_of(case, impl, why):
-    """F10: a backend page that makes progress but also carries items outside its batch (already
-    delivered, duplicated within the page, or never requested) is appended wholesale."""
-    if why and why.startswith("F10-shape:"):
-        return "F10"
-    return None
 
 
 def nontrivial_key(case, impl):
